@@ -82,6 +82,14 @@ def nt_c16(e):
     return e.get("kind") == "finite"
 
 
+def nt_c19(e):
+    return e["op"] in ("ToSQL", "ReadSQL") and len(e.get("dcalls", [])) >= 2
+
+
+def nt_c15(e):
+    return e.get("fired") == 1
+
+
 def nt_c01(e):
     return len(e.get("reobs", [])) >= 2
 
@@ -101,6 +109,24 @@ TV_NOTE = ("Trusted: TLC and the CommunityModules overrides; the harness encoder
 NOT_APPLICABLE = {}
 
 PROPS = {
+    "C19": dict(level="model_checking", nontrivial=nt_c19,
+                text="Frames with >=1 row however derived are written by the real ToSQL through database/sql into a recording, storing in-memory driver (harness/sqldrv.go) under every dialect "
+                     "configuration (escape character incl. multi-byte, ? or $n placeholders, table names with spaces/quotes) and read back by the real ReadSQL; result sets with NULLs leading, in "
+                     "the middle and trailing in text and float columns, byte-slice values, coercions, mixed-type and entirely-NULL columns are read directly. TLC requires: exactly one Exec per row in "
+                     "frame order whose statement text equals InsertText (spec/Sql.tla) byte for byte and whose arguments are that row's cells (null strings as NULL); the frame read = ReadSqlSem of the "
+                     "result set; the Prepare text = the configured query; a stored-and-read-back frame = the original with enum columns as strings.",
+                note=TV_NOTE + " Float precision rounding and columns holding values of several SQL types are Unspecified. database/sql's own argument conversion is part of the path under test.",
+                technique="TLA+ specification (Sql.tla) + TLC trace validation against a recording in-memory database/sql driver",
+                rule="random frames x dialects (round trip) and random result sets; non-trivial = a ToSQL/ReadSQL event with >=2 driver calls; distinct by (arguments, calls, result digest)"),
+    "C15": dict(level="fault_enumeration", nontrivial=nt_c15,
+                text="Fault enumeration over ALL positions: for each document of a corpus (CSV incl. one crossing the 1 KiB scan buffer, JSON) ReadCSV / ReadJSON are executed once per byte offset at "
+                     "which the io.Reader starts failing (error after, or together with, the last delivered bytes; several read fragmentations); for frames whose output stays below and exceeds 4096 and "
+                     "8192 bytes ToCSV / ToJSON are executed once per number of bytes the io.Writer accepts before failing (quick: every 7th offset of the large outputs plus the buffer boundaries; "
+                     "thorough: every offset); ToSQL / ReadSQL once per driver call number. All under recover. TLC decides per run (JudgeIO in spec/IOSem.tla): a panic is never accepted; if the fault fired the call "
+                     "must report an error (Err / returned error); if it did not fire the result is judged in full against Csv.tla / JsonG.tla / Sql.tla, so an error-free result is never a shortened one.",
+                note=TV_NOTE + " 'fired' is reported by the injecting reader/writer/driver of the harness.",
+                technique="exhaustive fault-position enumeration on the real code, each run judged by TLC against the I/O specifications",
+                rule="corpus x every fault position; non-trivial = a run in which the injected fault fired; distinct by (operation, input, fault position)"),
     "C16": dict(level="model_checking", nontrivial=nt_c16, trace_module="FloatTrace.tla", trace_cfg="FloatTrace.cfg",
                 text="Structured samples of binary64 (every biased exponent with mantissas 0, 1, 2, 2^52-1, 2^51, alternating bit patterns and random ones; both signs; every power of two and "
                      "ten with its two neighbours; integers around 2^53; halfway decimal cases; subnormal extremes; short decimals; random bit patterns) are formatted by the real "
@@ -291,7 +317,7 @@ def coverage_stats(prop, events, cfg):
             ok = False
         if not ok:
             continue
-        key = hashlib.sha1(json.dumps([e["op"], e.get("a"), e.get("dig"), e.get("gdig"), e.get("res"), e.get("bits"), e.get("prefix"), e.get("out") if e.get("bits") else None], sort_keys=True).encode()).hexdigest()
+        key = hashlib.sha1(json.dumps([e["op"], e.get("a"), e.get("dig"), e.get("gdig"), e.get("res"), e.get("bits"), e.get("prefix"), e.get("out") if e.get("bits") else None, e.get("scn") if e.get("fired") else None], sort_keys=True).encode()).hexdigest()
         if key in seen:
             continue
         seen.add(key)
